@@ -40,6 +40,29 @@ impl hickory_server::server::RequestHandler for SharedCatalog {
     }
 }
 
+/// a request handler of a library user: answers every query with `n` address records and sets (or clears)
+/// TC itself, as a rate limiter's "slip" or a relay of a truncated answer does
+struct TcHandler {
+    tc: bool,
+    n: usize,
+}
+
+#[async_trait::async_trait]
+impl hickory_server::server::RequestHandler for TcHandler {
+    async fn handle_request<R: hickory_server::server::ResponseHandler, T: hickory_net::runtime::Time>(
+        &self,
+        request: &hickory_server::server::Request,
+        mut response_handle: R,
+    ) {
+        let mut md = hickory_proto::op::Metadata::response_from_request(&request.metadata);
+        md.truncation = self.tc;
+        let owner = Name::from(request.queries.name());
+        let recs: Vec<Record> = (0..self.n).map(|i| Record::from_rdata(owner.clone(), 60, RData::A(A::new(10, 2, (i >> 8) as u8, i as u8)))).collect();
+        let resp = hickory_server::zone_handler::MessageResponseBuilder::from_message_request(request).build(md, recs.iter(), [], [], []);
+        let _ = response_handle.send_response(resp).await;
+    }
+}
+
 fn tsig_record(size: usize) -> Record<TSIG> {
     // owner "k." (3) + fixed (10) + alg name "hmac-sha256." (13) + time 6 + fudge 2 + maclen 2
     // + mac + origid 2 + error 2 + otherlen 2  = 42 + mac
@@ -173,11 +196,17 @@ async fn server_events(seed: u64, n: usize, trace: &mut dyn io::Write) {
     let mut rng = StdRng::seed_from_u64(seed ^ 0x5eed);
     let origin = Name::from_str("example.").unwrap();
     for case in 0..n {
-        let nrec = match rng.random_range(0..4) {
-            0 => rng.random_range(1..8),
-            1 => rng.random_range(8..40),
-            2 => rng.random_range(40..120),
-            _ => rng.random_range(120..300),
+        // every 7th zone holds an RRset of more than 64 KiB: even the stream transports have to cut it
+        let huge = case % 7 == 6;
+        let nrec = if huge {
+            rng.random_range(1100..1400)
+        } else {
+            match rng.random_range(0..4) {
+                0 => rng.random_range(1..8),
+                1 => rng.random_range(8..40),
+                2 => rng.random_range(40..120),
+                _ => rng.random_range(120..300),
+            }
         };
         let mut handler = InMemoryZoneHandler::<TokioRuntimeProvider>::empty(origin.clone(), ZoneType::Primary, AxfrPolicy::Deny, None);
         handler.upsert_mut(
@@ -186,16 +215,16 @@ async fn server_events(seed: u64, n: usize, trace: &mut dyn io::Write) {
         );
         handler.upsert_mut(Record::from_rdata(origin.clone(), 3600, RData::NS(NS(Name::from_str("ns.example.").unwrap()))), 1);
         let big = Name::from_str("big.example.").unwrap();
-        let txt = rng.random_bool(0.5);
+        let txt = huge || rng.random_bool(0.5);
         // a record the zone can hold but no encoder can write (one <character-string> of more than 255
         // octets): the response fails to encode for a reason other than size and the server falls back to
         // a bare SERVFAIL -- which is a message like any other
-        let unencodable_at = if txt && rng.random_bool(0.3) { rng.random_range(0..nrec) } else { usize::MAX };
+        let unencodable_at = if txt && !huge && rng.random_bool(0.3) { rng.random_range(0..nrec) } else { usize::MAX };
         for i in 0..nrec {
             let rd = if txt && i == unencodable_at {
                 RData::TXT(TXT::new(vec!["q".repeat(300)]))
             } else if txt {
-                RData::TXT(TXT::new(vec![format!("record-{i}-{}", "p".repeat(rng.random_range(0..60)))]))
+                RData::TXT(TXT::new(vec![format!("record-{i}-{}", "p".repeat(if huge { 50 } else { rng.random_range(0..60) }))]))
             } else {
                 RData::A(A::new(10, 1, (i >> 8) as u8, i as u8))
             };
@@ -252,6 +281,44 @@ async fn server_events(seed: u64, n: usize, trace: &mut dyn io::Write) {
                 json!({"ev":"srv","case":format!("srv-s{seed}-{case}"),"proto": if proto == Protocol::Udp {"udp"} else {"tcp"},
                     "adv":adv_seen,"replies":replies.len(),"len":len,"decoded":decoded,"leftover":leftover,"tc":tc,
                     "answers":an,"zone_records":nrec,"do":dnssec_ok,"unencodable":unencodable_at != usize::MAX})
+            )
+            .unwrap();
+        }
+        // a handler that sets TC itself: "... and otherwise unchanged"
+        for (tc, n, proto, adv) in [(true, 2usize, Protocol::Udp, -1i64), (false, 2, Protocol::Udp, -1), (true, 3, Protocol::Tcp, -1), (true, 2, Protocol::Udp, 1232),
+            (true, 60, Protocol::Udp, -1), (false, 60, Protocol::Udp, -1)] {
+            let mut q = Message::query();
+            q.metadata.id = rng.random();
+            q.add_query(Query::new(Name::from_str("slip.example.").unwrap(), RecordType::A));
+            if adv >= 0 {
+                let mut e = Edns::new();
+                e.set_max_payload(adv as u16);
+                q.edns = Some(e);
+            }
+            let src: SocketAddr = "192.0.2.7:5353".parse().unwrap();
+            let (handle, mut rx) = BufDnsStreamHandle::new(src);
+            hickory_server::server::verif_handle_raw_request(TcHandler { tc, n }, [], [], SerialMessage::new(q.to_vec().unwrap(), src), proto, handle).await;
+            let mut replies = Vec::new();
+            while let Ok(Some(m)) = tokio::time::timeout(std::time::Duration::from_millis(1), rx.next()).await {
+                replies.push(m);
+            }
+            let (len, decoded, leftover, tc_out, an) = match replies.first() {
+                Some(m) => {
+                    let b = m.bytes();
+                    let mut dec = BinDecoder::new(b);
+                    match Message::read(&mut dec) {
+                        Ok(d) => (b.len(), true, dec.len(), d.metadata.truncation, d.answers.len()),
+                        Err(_) => (b.len(), false, dec.len(), false, 0),
+                    }
+                }
+                None => (0, false, 0, false, 0),
+            };
+            writeln!(
+                trace,
+                "{}",
+                json!({"ev":"srvtc","case":format!("srvtc-s{seed}-{case}"),"proto": if proto == Protocol::Udp {"udp"} else {"tcp"},
+                    "adv":adv,"replies":replies.len(),"len":len,"decoded":decoded,"leftover":leftover,"tcIn":tc,"tc":tc_out,
+                    "answers":an,"given":n})
             )
             .unwrap();
         }
